@@ -1,3 +1,5 @@
 Require Import ExtrOcamlBasic ExtrOcamlNativeString.
-Require Import MPSV.Match.MatchCheck.
-Extraction "../ocaml/matchq.ml" check_matching intersect.
+Require Import MPSV.Match.MatchCheck MPSV.Roots.Cert MPSV.Roots.Transform MPSV.Match.ConvertModel.
+Extraction "../ocaml/matchq.ml" check_matching intersect
+  conv_scale conv_rescale conv_reverse conv_secular conv_secular_pre
+  secular_back_ok chebyshev_back_ok gq_of_rcoef rcoef_of_gq.
